@@ -444,6 +444,27 @@ func c17Run(c *core.Ctx) {
 			n += int64(len(seq))
 		}
 	}
+	// the edges of the two-digit year in LOCAL time: for every quarter-hour offset -12:00..+14:00 the first and the last
+	// fifteen hours of the local years 2000 and 2099 in quarter-hour steps (plus one second) — instants whose local year
+	// is inside the range the element can carry while their UTC year is not, and the other way round
+	if c.Shard == 4%c.NShards && c.Begin("stamps", "UniversalTime", map[string]string{"family": "local century edges"}) {
+		for q := -48; q <= 56; q++ {
+			loc := time.FixedZone("edge", q*900)
+			for _, base := range []time.Time{time.Date(2000, 1, 1, 0, 0, 0, 0, loc), time.Date(2099, 12, 31, 23, 59, 59, 0, loc), time.Date(2050, 1, 1, 0, 0, 0, 0, loc)} {
+				for k := 0; k <= 60; k++ {
+					d := time.Duration(k) * 15 * time.Minute
+					for _, t := range []time.Time{base.Add(d), base.Add(-d), base.Add(d + time.Second)} {
+						if y := t.In(loc).Year(); y < 2000 || y > 2099 {
+							continue // outside what two year digits can carry
+						}
+						c17StampExec(c, c17Stamp{Unix: t.Unix(), OffsetSec: q * 900})
+						n++
+					}
+				}
+			}
+		}
+		c.Tick()
+	}
 	// every civil time zone of the system's time zone database and every change of its offset between 2000 and 2100:
 	// the second before, the instant of, the second after and the day after each transition, and the middle of the
 	// period that follows (what a zone does at its own rule changes — double summer time, a summer-time period that
